@@ -155,6 +155,7 @@ type kase struct {
 	Living string       `json:"living"`
 	Jobs   int          `json:"jobs"`
 	FailAt int          `json:"fail_at,omitempty"`
+	Keeps  bool         `json:"keeps_failing,omitempty"` // every call from the FailAt-th on fails
 	Devs   []vsched.Dev `json:"schedule,omitempty"`
 	MapRev bool         `json:"map_reverse,omitempty"`
 	Bound  int          `json:"bound,omitempty"`
@@ -354,7 +355,7 @@ func judgeNames(k kase) (fs []finding) {
 func execPublish(k kase, devs []vsched.Dev) (*vsched.Outcome, *pub.MemWriter, error, bool) {
 	doc := decode(k.Doc)
 	opt := pub.Options(k.Mask, vis(k.Living))
-	w := &pub.MemWriter{FailAt: k.FailAt}
+	w := &pub.MemWriter{FailAt: k.FailAt, KeepsFailing: k.Keeps}
 	var err error
 	returned := false
 	ghtml.VerifResetSurnames() // every execution starts from the state of a fresh process
@@ -612,6 +613,10 @@ func units(tier string) []kase {
 					b = bound(tier) - 1
 				}
 				out = append(out, kase{Part: "faults", Doc: d, Mask: 63, Living: "show", Jobs: jobs, FailAt: fa, Bound: b})
+				// the same with a writer that keeps failing from there on (several workers fail)
+				if fa <= n {
+					out = append(out, kase{Part: "faults", Doc: d, Mask: 63, Living: "show", Jobs: jobs, FailAt: fa, Keeps: true, Bound: b})
+				}
 			}
 		}
 	}
